@@ -29,6 +29,7 @@ import Pandora.Proofs.C20Conc
 import Pandora.Proofs.C20Scen
 import Pandora.Proofs.C20Feed
 import Pandora.Proofs.C20R4
+import Pandora.Proofs.C20R6
 import Pandora.Bridge.C20
 
 namespace Pandora.Props.C20
@@ -314,7 +315,7 @@ theorem C20_scenario_step (c : Cfg) (gun : Nat) (scn : String) (cd : CallDef) (w
     (hd : namesDistinct c.calls = true) (hw : DefinitionsIntact c w) (hcd : cd ∈ c.calls) (hm : Modelled c cd) :
     (FailingStep cd (stepVars c cd w.iters sv).1 →
         ∃ (w' : World) (o : Outcome), shootStep .copy c gun scn cd w sv = .failed w' o ∧ o.calls = [] ∧
-          (o.samples = [sampleText (scn ++ ".t" ++ cd.name) 0] ∨ o.samples = [sampleText (scn ++ ".t" ++ cd.name) 400]) ∧
+          (o.samples = [sampleText (scn ++ "." ++ cd.tag) 0] ∨ o.samples = [sampleText (scn ++ "." ++ cd.tag) 400]) ∧
           DefinitionsIntact c w') ∧
     (¬ FailingStep cd (stepVars c cd w.iters sv).1 →
         ∃ (w' : World) (sv' : ShotVars) (o : Outcome) (m : String) (fs : List Field) (vals : List (String × Option String)),
@@ -324,7 +325,7 @@ theorem C20_scenario_step (c : Cfg) (gun : Nat) (scn : String) (cd : CallDef) (w
           (m, fs) ∈ methodTable ∧ cd.call = svc ++ "." ++ m ∧
           decodeFields fs (renderedPayload cd (stepVars c cd w.iters sv).1) = some vals ∧
           o.calls = [callText m (canonMsg fs vals) (mdText (renderedMd cd (stepVars c cd w.iters sv).1)) c.tmo] ∧
-          o.samples = [sampleText (scn ++ ".t" ++ cd.name)
+          o.samples = [sampleText (scn ++ "." ++ cd.tag)
             (serverCode m (canonMsg fs vals) (renderedMd cd (stepVars c cd w.iters sv).1))] ∧ DefinitionsIntact c w') := by
   obtain ⟨w', hw', _, hstep⟩ := shootStep_copy c gun scn cd w sv hd hw hcd hm
   constructor
@@ -711,5 +712,83 @@ theorem C20_index (c : Cfg) (cd : CallDef) (iters : List (String × Nat)) (hu : 
 
 example : fixedIndex 3 .last = 2 ∧ fixedIndex 3 (.fixed 7) = 1 ∧ fixedIndex 3 (.neg 1) = 2 ∧ fixedIndex 3 (.neg 3) = 0 ∧
     fixedIndex 3 (.neg 7) = 2 := by decide
+
+/-! ### round 6: whatever `sync.Pool` hands out; a good entry IS delivered; file → provider → pool of instances -/
+
+open Pandora.Proofs.C20R6 in
+/-- **C20_pool_oracle**: the grpc/json provider's reading loop over pooled ammo OBJECTS (four fields + the invalid flag;
+`Reset` assigns the whole struct, `Invalidate` sets the flag), where the k-th `p.Pool.Get()` of the run returns `pool k`
+— ANY object: a new one, or one released earlier by any instance after any entry, valid or flagged invalid. For every
+configuration, every file and every such oracle: the fields of the objects put on the sink, and the way the provider
+ends, are those of `feed` (hence of the stateless closed forms `C20_feed`, `C20_feed_isolated`, `C20_feed_unlimited`);
+what the gun makes of each delivered object (its early return for a flagged one included) is what `shootEntry` makes of
+the line's own fields; and an object delivered with the flag set holds nothing. Nothing an object carried before — fields
+or flag — reaches the server or a sample. -/
+theorem C20_pool_oracle (cfg : ProvCfg) (raws : List Raw) (pool : Nat → Obj) (tmo : Nat) :
+    (feedO cfg pool raws).1.map (·.e) = (feed cfg raws).1 ∧ (feedO cfg pool raws).2 = (feed cfg raws).2 ∧
+    (feedO cfg pool raws).1.map (shootObj tmo) = (feed cfg raws).1.map (shootEntry tmo) ∧
+    (∀ o ∈ (feedO cfg pool raws).1, o.invalid = true → o.e = zeroEntry) := by
+  have h1 : (feedO cfg pool raws).1.map (·.e) = (feed cfg raws).1 := (runPassesO_sim cfg pool raws (feedFuel cfg) 0 0 0 zeroEntry).1
+  have h2 : (feedO cfg pool raws).2 = (feed cfg raws).2 := (runPassesO_sim cfg pool raws (feedFuel cfg) 0 0 0 zeroEntry).2
+  have hinv : ∀ o ∈ (feedO cfg pool raws).1, o.invalid = true → o.e = zeroEntry := runPassesO_inv cfg pool raws (feedFuel cfg) 0 0 0
+  refine ⟨h1, h2, ?_, hinv⟩
+  have : (feed cfg raws).1.map (shootEntry tmo) = ((feedO cfg pool raws).1.map (·.e)).map (shootEntry tmo) := by
+    rw [← h1]
+  rw [this, List.map_map]
+  apply List.map_congr_left
+  intro o ho
+  exact shootObj_eq tmo o (hinv o ho)
+
+/-- non-vacuity: a pool that hands out rich objects, every other one flagged invalid (what the harness prepares with
+`dirty=`): a sparse line, an undecodable line and a line without any key are delivered as themselves -/
+example : ((feedO { passes := 1, limit := 0, chosen := [], coe := true } dirtyObj
+      [.line { tag := some "a", call := some "target.TargetService.Hello" }, .bad, .line {}]).1.map
+        fun o => (o.e.tag, o.e.md.length, o.e.payload.length, o.invalid))
+    = [("a", 0, 0, false), ("", 0, 0, true), ("", 0, 0, false)] ∧
+    (dirtyObj 1).invalid = true ∧ (dirtyObj 0).e.md.length = 2 := by decide
+
+/-- **C20_entry_delivered** (the positive half of `C20_method` / `C20_errors_isolated`): an entry that names a method of
+the table and whose payload fits the method's input type makes EXACTLY one call — to that method, with the decoded
+message, the entry's metadata, the configured timeout — and exactly one sample carrying the server's answer. -/
+theorem C20_entry_delivered (tmo : Nat) (e : Entry) (h : ¬ Failing e) :
+    ∃ m fs vals, (m, fs) ∈ methodTable ∧ e.call = svc ++ "." ++ m ∧ decodeFields fs e.payload = some vals ∧
+      shootEntry tmo e = { calls := [callText m (canonMsg fs vals) (mdText e.md) tmo],
+                           samples := [sampleText e.tag (serverCode m (canonMsg fs vals) e.md)] } := by
+  cases hl : lookupMethod e.call with
+  | none => exact absurd (Or.inl hl) h
+  | some mf =>
+    obtain ⟨m, fs⟩ := mf
+    cases hd : decodeFields fs e.payload with
+    | none => exact absurd (Or.inr ⟨m, fs, hl, hd⟩) h
+    | some vals =>
+      obtain ⟨h1, h2⟩ := lookupMethod_some e.call m fs hl
+      exact ⟨m, fs, vals, h1, h2, hd, by simp [shootEntry, hl, hd]⟩
+
+example : ¬ Failing { tag := "t", call := "target.TargetService.Hello", md := [("K", "v")], payload := [("name", PVal.s "x")] } := by
+  intro h
+  rcases h with h | ⟨m, fs, h1, h2⟩
+  · simp [lookupMethod, methodTable, svc] at h
+  · simp [lookupMethod, methodTable, svc] at h1
+    obtain ⟨rfl, rfl⟩ := h1
+    simp [decodeFields, findField, convert] at h2
+
+/-- **C20_json_end_to_end** (composition file → provider → pool of instances → server): for every provider configuration
+with a configured number of passes, every file none of whose lines stops the provider, every `sync.Pool` oracle, every
+number of instances, every shared-client pool size and every assignment of the delivered ammo to instances: shot `k` is
+fired by instance `sched[k]` and produces what the k-th element of the STATELESS description — `passes` times the file's
+per-line ammo, cut at the limit — produces on its own (`shootEntry`: `C20_method`, `C20_entry_delivered`,
+`C20_errors_isolated` say what that is). -/
+theorem C20_json_end_to_end (cfg : ProvCfg) (raws : List Raw) (pool : Nat → Obj) (tmo n sc : Nat) (sched : List Nat)
+    (hp : cfg.passes ≠ 0) (hok : raws.all (rawOk cfg) = true) (h : ∀ i ∈ sched, i < n) :
+    ((runPool tmo (initPool n sc) sched ((feedO cfg pool raws).1.map (·.e))).2.map fun (i, _, o) => (i, o))
+      = expectedJsonSched tmo sched (takeLim cfg.limit (passesItems cfg raws cfg.passes)) := by
+  rw [(C20_pool_oracle cfg raws pool tmo).1, C20_instances tmo n sc sched _ h, C20_feed_isolated cfg raws hp hok]
+
+/-- non-vacuity: the hypotheses hold together for the example file of `C20_feed` (two passes, continueonerror), three
+instances, a dirty pool -/
+example : ({ passes := 2, limit := 5, chosen := [], coe := true } : ProvCfg).passes ≠ 0 ∧
+    exRaws.all (rawOk { passes := 2, limit := 5, chosen := [], coe := true }) = true ∧ (∀ i ∈ [2, 0, 1, 2, 0], i < 3) ∧
+    ((feedO { passes := 2, limit := 5, chosen := [], coe := true } dirtyObj exRaws).1.map (·.e.tag)) = ["a", "", "b", "a", ""] := by
+  decide
 
 end Pandora.Props.C20
